@@ -1,7 +1,6 @@
 import Py4hwV.Props.C09
 import Py4hwV.Lib.SeqNet
 import Py4hwV.Proofs.C01FlatNet
-import Py4hwV.Proofs.C01FlatIR
 /-
   C09, netlist level: the NETLIST a sequential block's constructor builds (Reg leaves + combinational leaves, all running
   their GENERATED step functions), simulated by `Net.Sim` (`Simulator.clk`: propagateAll, clock all, settle, propagateAll),
@@ -915,6 +914,787 @@ theorem edgeDetector_netD_pre (dir : Dir) (h : List Nat) (hv : ∀ x ∈ h, x < 
 example : (propagateAll (edgeNet .pos).netD.design ((edgePokes 1).foldl (putW (edgeNet .pos).netD.design)
     (netRun (edgeNet .pos).netD edgePokes (initC (edgeNet .pos).netD.design (edgeNet .pos).netD.st0 (edgeNet .pos).netD.cons)
       [0, 1, 0]))).val 2 = 1 := by decide
+
+
+/-! ## ShiftRegisterBidirectional -/
+
+theorem srb_kinds_get (w depth k : Nat) (hk : k < depth + 3) :
+    (srbNet w depth).netD.combs[k]? = some (Kind.leaf (srbNet w depth).wd (srbKind depth k)) := by
+  simp [KNet.netD, srbNet, List.getElem?_map, List.getElem?_range hk]
+
+theorem srb_kinds_none (w depth k : Nat) (hk : ¬ k < depth + 3) : (srbNet w depth).netD.combs[k]? = none := by
+  apply List.getElem?_eq_none
+  simp [KNet.netD, srbNet]; omega
+
+theorem srb_regs_get (w depth : Nat) (j : Nat) (R : RLeaf) (h : (srbNet w depth).netD.regs[j]? = some R) :
+    j < depth ∧ R = srbReg depth j := by
+  simp only [KNet.netD, srbNet, List.getElem?_map] at h
+  by_cases hj : j < depth
+  · rw [List.getElem?_range hj] at h
+    simp at h
+    exact ⟨hj, h.symm⟩
+  · rw [List.getElem?_eq_none (by simp; omega)] at h
+    simp at h
+
+theorem srbKind_0 (depth : Nat) : srbKind depth 0 = .or2 5 6 7 := by simp [srbKind]
+theorem srbKind_mux (depth k : Nat) (hk : k < depth) : srbKind depth (k + 1) =
+    .mux2 5 (if k = 0 then 1 else 8 + k - 1) (if k = depth - 1 then 2 else 8 + k + 1) (8 + depth + k) := by
+  have : k + 1 ≤ depth := by omega
+  simp [srbKind, this]
+theorem srbKind_lo (depth : Nat) : srbKind depth (depth + 1) = .buf 8 3 := by simp [srbKind]
+theorem srbKind_ro (depth : Nat) : srbKind depth (depth + 2) = .buf (8 + depth - 1) 4 := by
+  have h1 : ¬ (depth + 2 ≤ depth) := by omega
+  simp [srbKind, h1]
+
+/-- what leaf k reads / writes -/
+theorem srb_rw (w depth k : Nat) (hd : 0 < depth) :
+    (∀ x, x ∈ (srbNet w depth).netD.reads k → x = 1 ∨ x = 2 ∨ x = 5 ∨ x = 6 ∨ (8 ≤ x ∧ x < 8 + depth)) ∧
+    (∀ x, x ∈ (srbNet w depth).netD.writes k → k < depth + 3 ∧
+      x = (if k = 0 then 7 else if k ≤ depth then 8 + depth + (k - 1) else if k = depth + 1 then 3 else 4)) := by
+  by_cases hk : k < depth + 3
+  · simp only [NetD.reads, NetD.writes, srb_kinds_get w depth k hk]
+    have cases4 : k = 0 ∨ (∃ j, j < depth ∧ k = j + 1) ∨ k = depth + 1 ∨ k = depth + 2 := by
+      rcases Nat.eq_zero_or_pos k with h | h
+      · exact Or.inl h
+      · by_cases h1 : k ≤ depth
+        · exact Or.inr (Or.inl ⟨k - 1, by omega, by omega⟩)
+        · omega
+    rcases cases4 with rfl | ⟨j, hj, rfl⟩ | rfl | rfl
+    · rw [srbKind_0]; simp [Kind.leaf]
+    · rw [srbKind_mux depth j hj]
+      have hle : j + 1 ≤ depth := by omega
+      simp only [Kind.leaf]
+      constructor
+      · intro x hx
+        simp at hx
+        rcases hx with rfl | rfl | rfl
+        · simp
+        · by_cases h : j = depth - 1 <;> simp [h] <;> omega
+        · by_cases h : j = 0 <;> simp [h] <;> omega
+      · intro x hx; simp at hx; subst hx; simp [hle]; omega
+    · rw [srbKind_lo]
+      simp only [Kind.leaf]
+      constructor
+      · intro x hx; simp at hx; subst hx; omega
+      · intro x hx; simp at hx; subst hx
+        have : ¬ (depth + 1 ≤ depth) := by omega
+        simp [this]
+    · rw [srbKind_ro]
+      simp only [Kind.leaf]
+      constructor
+      · intro x hx; simp at hx; subst hx; omega
+      · intro x hx; simp at hx; subst hx
+        have : ¬ (depth + 2 ≤ depth) := by omega
+        simp [this]
+  · simp [NetD.reads, NetD.writes, srb_kinds_none w depth k hk]
+
+theorem srbNet_ok (w depth : Nat) (hd : 0 < depth) : NetOK (srbNet w depth).netD := by
+  refine ⟨⟨?_, ?_⟩, ?_, ?_⟩
+  · apply C04.topoOK_of_pairwise
+    · intro a _ x hr hw
+      have h1 := (srb_rw w depth a hd).1 x hr
+      have h2 := (srb_rw w depth a hd).2 x hw
+      have := h2.2
+      split at this <;> (try split at this) <;> (try split at this) <;> omega
+    · show List.Pairwise _ (List.range (depth + 3))
+      rw [List.pairwise_iff_getElem]
+      intro i j hi hj hij
+      simp only [List.getElem_range]
+      refine ⟨?_, ?_, by omega⟩
+      · intro x hr hw
+        have h1 := (srb_rw w depth i hd).1 x hr
+        have h2 := (srb_rw w depth j hd).2 x hw
+        have := h2.2
+        split at this <;> (try split at this) <;> (try split at this) <;> omega
+      · intro x hw1 hw2
+        have h1 := (srb_rw w depth i hd).2 x hw1
+        have h2 := (srb_rw w depth j hd).2 x hw2
+        have e1 := h1.2
+        have e2 := h2.2
+        split at e1 <;> (try split at e1) <;> (try split at e1) <;>
+          split at e2 <;> (try split at e2) <;> (try split at e2) <;> omega
+  · intro i hi
+    simp [KNet.netD, srbNet] at hi ⊢
+    exact hi
+  · intro i j R R' hi hj e
+    obtain ⟨_, rfl⟩ := srb_regs_get w depth i R hi
+    obtain ⟨_, rfl⟩ := srb_regs_get w depth j R' hj
+    simp only [srbReg] at e
+    omega
+  · intro R hR c hc
+    obtain ⟨j, hj, hjR⟩ := List.mem_iff_getElem.mp hR
+    obtain ⟨hjd, rfl⟩ := srb_regs_get w depth j R (by rw [List.getElem?_eq_getElem hj, hjR])
+    obtain ⟨k, hk, hkc⟩ := List.mem_iff_getElem.mp hc
+    have hk' : k < depth + 3 := by simpa [KNet.netD, srbNet] using hk
+    have hget : (srbNet w depth).netD.combs[k]? = some c := by rw [List.getElem?_eq_getElem hk, hkc]
+    have hw : c.out ∈ (srbNet w depth).netD.writes k := by simp [NetD.writes, hget]
+    have := ((srb_rw w depth k hd).2 _ hw).2
+    simp only [srbReg]
+    split at this <;> (try split at this) <;> (try split at this) <;> omega
+
+def SrbInv (w depth : Nat) (D : NetD) (s : State Int) (st : List RegSt) : Prop :=
+  ∃ l : List Nat, st = l.map nat ∧ l.length = depth ∧ (∀ x ∈ l, x < 2 ^ w) ∧
+    (∀ k, k < depth → s.st (D.rid k) = (l.getD k 0 : Nat) ∧ s.val (8 + k) = l.getD k 0) ∧ s.prepared = []
+
+theorem srb_step (w depth : Nat) (hd : 0 < depth) (s : State Int) (st : List RegSt) (i : SrbIn)
+    (hv : i.leftIn < 2 ^ w ∧ i.rightIn < 2 ^ w ∧ i.shiftLeft < 2 ∧ i.shiftRight < 2)
+    (hI : SrbInv w depth (srbNet w depth).netD s st) :
+    let D := (srbNet w depth).netD
+    let s' := clk D.design 1 ((srbPokes i).foldl (putW D.design) s)
+    SrbInv w depth D s' ((shiftRegBidir w depth).step st i) ∧
+    [3, 4].map s'.val = (fun o : Nat × Nat => [o.1, o.2]) ((shiftRegBidir w depth).out ((shiftRegBidir w depth).step st i) i) := by
+  intro D s'
+  obtain ⟨l, rfl, hlen, hall, hreg0, hp⟩ := hI
+  obtain ⟨hli, hri, hsl, hsr⟩ := hv
+  let sp := (srbPokes i).foldl (putW D.design) s
+  have wd1 : ∀ x, (x = 5 ∨ x = 6 ∨ x = 7) → D.wd x = 1 := by intro x hx; simp [D, KNet.netD, srbNet, hx]
+  have wdw : ∀ x, ¬ (x = 5 ∨ x = 6 ∨ x = 7) → D.wd x = w := by intro x hx; simp [D, KNet.netD, srbNet, hx]
+  have spv : sp.val = upd (upd (upd (upd s.val 1 i.leftIn) 2 i.rightIn) 5 i.shiftLeft) 6 i.shiftRight := by
+    simp only [sp, srbPokes, List.foldl_cons, List.foldl_nil, putW_val, wd1 5 (by simp), wd1 6 (by simp),
+      wdw 1 (by simp), wdw 2 (by simp), Bits.put_ofNat]
+    simp [Nat.mod_eq_of_lt hli, Nat.mod_eq_of_lt hri, Nat.mod_eq_of_lt hsl, Nat.mod_eq_of_lt hsr]
+  have spst : sp.st = s.st := by simp only [sp, srbPokes, List.foldl_cons, List.foldl_nil, putW_val]
+  have spp : sp.prepared = [] := by simp only [sp, srbPokes, List.foldl_cons, List.foldl_nil, putW_val]; exact hp
+  have hrl : D.regs.length = depth := by simp [D, KNet.netD, srbNet]
+  have hC := cycle D (srbNet_ok w depth hd) sp spp (fun j => l.getD j 0) (by
+    intro j hj; rw [spst]; exact (hreg0 j (by omega)).1)
+  obtain ⟨hreg, hfix1, hfix2, hin1, hin2, hp2⟩ := hC
+  have free : ∀ x, (x = 1 ∨ x = 2 ∨ x = 5 ∨ x = 6 ∨ (8 ≤ x ∧ x < 8 + depth)) → ∀ c, c ∈ D.combs → c.out ≠ x := by
+    intro x hx c hc
+    obtain ⟨k, hk, hkc⟩ := List.mem_iff_getElem.mp hc
+    have hget : D.combs[k]? = some c := by rw [List.getElem?_eq_getElem hk, hkc]
+    have hw : c.out ∈ D.writes k := by simp [NetD.writes, hget]
+    have := ((srb_rw w depth k hd).2 _ hw).2
+    split at this <;> (try split at this) <;> (try split at this) <;> omega
+  have memK : ∀ k, k < depth + 3 → Kind.leaf D.wd (srbKind depth k) ∈ D.combs := by
+    intro k hk; exact List.mem_of_getElem? (srb_kinds_get w depth k hk)
+  -- generic facts for a settled valuation V with given inputs and register wires
+  have comb : ∀ (V : Nat → Nat) (L : List Nat), CombFix D V → V 1 = i.leftIn → V 2 = i.rightIn → V 5 = i.shiftLeft →
+      V 6 = i.shiftRight → (∀ k, k < depth → V (8 + k) = L.getD k 0) →
+      V 7 = or2 1 i.shiftLeft i.shiftRight ∧
+      (∀ k, k < depth → V (8 + depth + k) = mux2 w i.shiftLeft (if k = 0 then i.leftIn else L.getD (k - 1) 0)
+          (if k = depth - 1 then i.rightIn else L.getD (k + 1) 0)) ∧
+      V 3 = buf w (L.getD 0 0) ∧ V 4 = buf w (L.getD (depth - 1) 0) := by
+    intro V L hfix h1 h2 h5 h6 hq
+    refine ⟨?_, ?_, ?_, ?_⟩
+    · have := hfix _ (memK 0 (by omega))
+      rw [srbKind_0] at this
+      simp only [Kind.leaf, List.map, FlatM.g, List.getD_cons_zero, List.getD_cons_succ, h5, h6, wd1 7 (by simp)] at this
+      rw [this]; exact Leaf.gen_or2 1 _ _
+    · intro k hk
+      have := hfix _ (memK (k + 1) (by omega))
+      rw [srbKind_mux depth k hk] at this
+      have hvl : V (if k = 0 then 1 else 8 + k - 1) = if k = 0 then i.leftIn else L.getD (k - 1) 0 := by
+        by_cases h0 : k = 0
+        · simp [h0, h1]
+        · simp only [h0, if_false]
+          have : 8 + k - 1 = 8 + (k - 1) := by omega
+          rw [this, hq (k - 1) (by omega)]
+      have hvr : V (if k = depth - 1 then 2 else 8 + k + 1) = if k = depth - 1 then i.rightIn else L.getD (k + 1) 0 := by
+        by_cases h0 : k = depth - 1
+        · simp [h0, h2]
+        · simp only [h0, if_false]
+          have : 8 + k + 1 = 8 + (k + 1) := by omega
+          rw [this, hq (k + 1) (by omega)]
+      simp only [Kind.leaf, List.map, FlatM.g, List.getD_cons_zero, List.getD_cons_succ, h5, hvl, hvr,
+        wdw (8 + depth + k) (by omega)] at this
+      rw [this]; exact Leaf.gen_mux2 w _ _ _
+    · have := hfix _ (memK (depth + 1) (by omega))
+      rw [srbKind_lo] at this
+      have h8 := hq 0 hd
+      simp only [Nat.add_zero] at h8
+      simp only [Kind.leaf, List.map, FlatM.g, List.getD_cons_zero, h8, wdw 3 (by simp)] at this
+      rw [this]; exact Leaf.gen_buf w _
+    · have := hfix _ (memK (depth + 2) (by omega))
+      rw [srbKind_ro] at this
+      have h8 := hq (depth - 1) (by omega)
+      have e8 : 8 + (depth - 1) = 8 + depth - 1 := by omega
+      rw [e8] at h8
+      simp only [Kind.leaf, List.map, FlatM.g, List.getD_cons_zero, h8, wdw 4 (by simp)] at this
+      rw [this]; exact Leaf.gen_buf w _
+  have v1 : (propagateAll D.design sp).val 1 = i.leftIn := by rw [hin1 1 (free 1 (by simp)), spv]; simp [upd]
+  have v2 : (propagateAll D.design sp).val 2 = i.rightIn := by rw [hin1 2 (free 2 (by simp)), spv]; simp [upd]
+  have v5 : (propagateAll D.design sp).val 5 = i.shiftLeft := by rw [hin1 5 (free 5 (by simp)), spv]; simp [upd]
+  have v6 : (propagateAll D.design sp).val 6 = i.shiftRight := by rw [hin1 6 (free 6 (by simp)), spv]; simp [upd]
+  have vq : ∀ k, k < depth → (propagateAll D.design sp).val (8 + k) = l.getD k 0 := by
+    intro k hk
+    rw [hin1 (8 + k) (free _ (by omega)), spv]
+    simp only [upd]
+    rw [if_neg (by omega), if_neg (by omega), if_neg (by omega), if_neg (by omega)]
+    exact (hreg0 k hk).2
+  obtain ⟨c7, cmux, _, _⟩ := comb _ l hfix1 v1 v2 v5 v6 vq
+  let l' := (Spec.shiftRegBidir w depth).step l i
+  have hlen' : l'.length = depth := srb_step_len w depth i l hd hlen
+  have hlt' : ∀ x ∈ l', x < 2 ^ w := srb_step_lt w depth i l hall
+  have hnext : ∀ k, k < depth → regNextV (propagateAll D.design sp).val (srbReg depth k) (l.getD k 0) = l'.getD k 0 := by
+    intro k hk
+    have he := srb_elem w depth i l hd hlen hall k hk
+    have : l'.getD k 0 = (if or2 1 i.shiftLeft i.shiftRight = 0 then l.getD k 0
+        else mux2 w i.shiftLeft (if k = 0 then i.leftIn else l.getD (k - 1) 0)
+               (if k = depth - 1 then i.rightIn else l.getD (k + 1) 0)) := by
+      rw [List.getD_eq_getElem?_getD, he]; rfl
+    rw [this]
+    simp only [regNextV, srbReg, C01.regNext, c7, cmux k hk]
+    simp
+  have getlt : ∀ k, l'.getD k 0 < 2 ^ w := getD_lt w l' hlt'
+  have hregs : ∀ k, k < depth →
+      (clk D.design 1 sp).st (D.rid k) = (l'.getD k 0 : Nat) ∧ (clk D.design 1 sp).val (8 + k) = l'.getD k 0 := by
+    intro k hk
+    have hget : D.regs[k]? = some (srbReg depth k) := by
+      simp [D, KNet.netD, srbNet, List.getElem?_map, List.getElem?_range hk]
+    have := hreg k (srbReg depth k) hget
+    rw [hnext k hk] at this
+    refine ⟨this.2, ?_⟩
+    have hq : (srbReg depth k).q = 8 + k := rfl
+    rw [hq] at this
+    rw [this.1, wdw (8 + k) (by omega), Bits.put_ofNat]
+    exact Nat.mod_eq_of_lt (getlt k)
+  have hstep : (shiftRegBidir w depth).step (l.map nat) i = l'.map nat := srbClk_nat w depth i l hd hlen hall
+  refine ⟨⟨l', hstep, hlen', hlt', hregs, hp2⟩, ?_⟩
+  rw [hstep]
+  have notreg : ∀ x, x < 8 → ∀ R, R ∈ D.regs → R.q ≠ x := by
+    intro x hx R hR
+    obtain ⟨j, hj, hjR⟩ := List.mem_iff_getElem.mp hR
+    obtain ⟨_, rfl⟩ := srb_regs_get w depth j R (by rw [List.getElem?_eq_getElem hj, hjR])
+    simp [srbReg]; omega
+  have w1 : (clk D.design 1 sp).val 1 = i.leftIn := by rw [hin2 1 (free 1 (by simp)) (notreg 1 (by omega)), spv]; simp [upd]
+  have w2 : (clk D.design 1 sp).val 2 = i.rightIn := by rw [hin2 2 (free 2 (by simp)) (notreg 2 (by omega)), spv]; simp [upd]
+  have w5 : (clk D.design 1 sp).val 5 = i.shiftLeft := by rw [hin2 5 (free 5 (by simp)) (notreg 5 (by omega)), spv]; simp [upd]
+  have w6 : (clk D.design 1 sp).val 6 = i.shiftRight := by rw [hin2 6 (free 6 (by simp)) (notreg 6 (by omega)), spv]; simp [upd]
+  obtain ⟨_, _, c3, c4⟩ := comb _ l' hfix2 w1 w2 w5 w6 (fun k hk => (hregs k hk).2)
+  simp only [List.map, shiftRegBidir, qAt, getD_map_nat, nat_q]
+  show [(clk D.design 1 sp).val 3, (clk D.design 1 sp).val 4] = _
+  rw [c3, c4]
+
+/-- **ShiftRegisterBidirectional, netlist level** (every width, every depth ≥ 1): Or2, `depth` × (Mux2 + Reg), 2 Buf —
+    generated leaves under `Net.Sim` from power-up — show on left_out / right_out after every
+    `poke left_in,right_in,shift_left,shift_right; clk(1)` the after-edge outputs of `Lib.shiftRegBidir` -/
+theorem shiftRegBidir_net (w depth : Nat) (hd : 0 < depth) (h : List SrbIn)
+    (hv : ∀ x ∈ h, x.leftIn < 2 ^ w ∧ x.rightIn < 2 ^ w ∧ x.shiftLeft < 2 ∧ x.shiftRight < 2) :
+    let D := (srbNet w depth).netD
+    netTrace D srbPokes [3, 4] (initC D.design D.st0 D.cons) h =
+      ((shiftRegBidir w depth).trace (shiftRegBidir w depth).init h).map (fun ab => [ab.2.1, ab.2.2]) := by
+  intro D
+  apply netTrace_sim D (shiftRegBidir w depth) srbPokes [3, 4] (fun o => [o.1, o.2])
+    (fun x => x.leftIn < 2 ^ w ∧ x.rightIn < 2 ^ w ∧ x.shiftLeft < 2 ∧ x.shiftRight < 2) (SrbInv w depth D)
+  · intro s st i hi hI; exact srb_step w depth hd s st i hi hI
+  · exact hv
+  · have hi := init_state D (srbNet_ok w depth hd)
+    refine ⟨List.replicate depth 0, by simp [shiftRegBidir, regInit_zero], by simp, ?_, ?_, hi.1⟩
+    · intro x hx; simp only [List.mem_replicate] at hx; rw [hx.2]; exact Nat.two_pow_pos _
+    · intro j hj
+      have hget : D.regs[j]? = some (srbReg depth j) := by
+        simp [D, KNet.netD, srbNet, List.getElem?_map, List.getElem?_range hj]
+      have h0 := hi.2 j (srbReg depth j) hget
+      have e0 : (List.replicate depth 0).getD j 0 = 0 := by
+        simp [List.getD_eq_getElem?_getD, List.getElem?_replicate, hj]
+      rw [e0]
+      refine ⟨h0.1, ?_⟩
+      have := h0.2
+      simp only [srbReg] at this
+      rw [this]; exact put_zero _
+
+example : netTrace (srbNet 4 3).netD srbPokes [3, 4]
+    (initC (srbNet 4 3).netD.design (srbNet 4 3).netD.st0 (srbNet 4 3).netD.cons)
+    [⟨1, 9, 0, 1⟩, ⟨2, 9, 0, 1⟩, ⟨3, 9, 1, 0⟩] = [[1, 0], [2, 0], [1, 9]] := by decide
+
+
+/-! ## Stack_ShiftRegister -/
+theorem stk_kinds_get (w depth k : Nat) (hk : k < depth + 4) :
+    (stackNet w depth).netD.combs[k]? = some (Kind.leaf (stackNet w depth).wd (stackKind depth k)) := by
+  simp [KNet.netD, stackNet, List.getElem?_map, List.getElem?_range hk]
+
+theorem stk_kinds_none (w depth k : Nat) (hk : ¬ k < depth + 4) : (stackNet w depth).netD.combs[k]? = none := by
+  apply List.getElem?_eq_none
+  simp [KNet.netD, stackNet]; omega
+
+theorem stk_regs_get (w depth : Nat) (j : Nat) (R : RLeaf) (h : (stackNet w depth).netD.regs[j]? = some R) :
+    j < depth + 1 ∧ R = stackReg depth j := by
+  simp only [KNet.netD, stackNet, List.getElem?_map] at h
+  by_cases hj : j < depth + 1
+  · rw [List.getElem?_range hj] at h
+    simp at h
+    exact ⟨hj, h.symm⟩
+  · rw [List.getElem?_eq_none (by simp; omega)] at h
+    simp at h
+
+theorem stackReg_q (depth j : Nat) (hj : j < depth + 1) : (stackReg depth j).q = if j < depth then 8 + j else 8 + 2 * depth := by
+  unfold stackReg; split <;> rfl
+
+/-- what leaf k reads / writes -/
+theorem stk_rw (w depth k : Nat) (hd : 0 < depth) :
+    (∀ x, x ∈ (stackNet w depth).netD.reads k → 0 < k ∧ (x = 1 ∨ x = 2 ∨ x = 5 ∨ x = 6 ∨ (8 ≤ x ∧ x < 8 + depth))) ∧
+    (∀ x, x ∈ (stackNet w depth).netD.writes k → k < depth + 4 ∧
+      x = (if k = 0 then 2 else if k = 1 then 7 else if k ≤ depth + 1 then 8 + depth + (k - 2) else if k = depth + 2 then 3 else 4)) := by
+  by_cases hk : k < depth + 4
+  · simp only [NetD.reads, NetD.writes, stk_kinds_get w depth k hk]
+    have cases5 : k = 0 ∨ k = 1 ∨ (∃ j, j < depth ∧ k = j + 2) ∨ k = depth + 2 ∨ k = depth + 3 := by
+      by_cases h0 : k = 0
+      · exact Or.inl h0
+      · by_cases h1 : k = 1
+        · exact Or.inr (Or.inl h1)
+        · by_cases h2 : k ≤ depth + 1
+          · exact Or.inr (Or.inr (Or.inl ⟨k - 2, by omega, by omega⟩))
+          · omega
+    rcases cases5 with rfl | rfl | ⟨j, hj, rfl⟩ | rfl | rfl
+    · simp [stackKind, Kind.leaf]
+    · simp [stackKind, srbKind_0, Kind.leaf]
+    · have e : stackKind depth (j + 2) = srbKind depth (j + 1) := by simp [stackKind]
+      rw [e, srbKind_mux depth j hj]
+      simp only [Kind.leaf]
+      constructor
+      · intro x hx
+        simp at hx
+        refine ⟨by omega, ?_⟩
+        rcases hx with rfl | rfl | rfl
+        · simp
+        · by_cases h : j = depth - 1 <;> simp [h] <;> omega
+        · by_cases h : j = 0 <;> simp [h] <;> omega
+      · intro x hx; simp at hx; subst hx
+        have h1 : j + 2 ≤ depth + 1 := by omega
+        simp [h1]; omega
+    · have e : stackKind depth (depth + 2) = srbKind depth (depth + 1) := by simp [stackKind]
+      rw [e, srbKind_lo]
+      simp only [Kind.leaf]
+      constructor
+      · intro x hx; simp at hx; subst hx; omega
+      · intro x hx; simp at hx; subst hx
+        have : ¬ (depth + 2 ≤ depth + 1) := by omega
+        have h1 : ¬ (depth + 2 = 1) := by omega
+        simp [this, h1]
+    · have e : stackKind depth (depth + 3) = srbKind depth (depth + 2) := by simp [stackKind]
+      rw [e, srbKind_ro]
+      simp only [Kind.leaf]
+      constructor
+      · intro x hx; simp at hx; subst hx; omega
+      · intro x hx; simp at hx; subst hx
+        have : ¬ (depth + 3 ≤ depth + 1) := by omega
+        have h1 : ¬ (depth + 3 = 1) := by omega
+        have h2 : ¬ (depth + 3 = depth + 2) := by omega
+        simp [this, h1, h2]
+  · simp [NetD.reads, NetD.writes, stk_kinds_none w depth k hk]
+
+theorem stackNet_ok (w depth : Nat) (hd : 0 < depth) : NetOK (stackNet w depth).netD := by
+  refine ⟨⟨?_, ?_⟩, ?_, ?_⟩
+  · apply C04.topoOK_of_pairwise
+    · intro a _ x hr hw
+      have h1 := (stk_rw w depth a hd).1 x hr
+      have h2 := (stk_rw w depth a hd).2 x hw
+      have := h2.2
+      split at this <;> (try split at this) <;> (try split at this) <;> (try split at this) <;> omega
+    · show List.Pairwise _ (List.range (depth + 4))
+      rw [List.pairwise_iff_getElem]
+      intro i j hi hj hij
+      simp only [List.getElem_range]
+      refine ⟨?_, ?_, by omega⟩
+      · intro x hr hw
+        have h1 := (stk_rw w depth i hd).1 x hr
+        have h2 := (stk_rw w depth j hd).2 x hw
+        have := h2.2
+        split at this <;> (try split at this) <;> (try split at this) <;> (try split at this) <;> omega
+      · intro x hw1 hw2
+        have h1 := (stk_rw w depth i hd).2 x hw1
+        have h2 := (stk_rw w depth j hd).2 x hw2
+        have e1 := h1.2
+        have e2 := h2.2
+        split at e1 <;> (try split at e1) <;> (try split at e1) <;> (try split at e1) <;>
+          split at e2 <;> (try split at e2) <;> (try split at e2) <;> (try split at e2) <;> omega
+  · intro i hi
+    simp [KNet.netD, stackNet] at hi ⊢
+    exact hi
+  · intro i j R R' hi hj e
+    obtain ⟨hi', rfl⟩ := stk_regs_get w depth i R hi
+    obtain ⟨hj', rfl⟩ := stk_regs_get w depth j R' hj
+    rw [stackReg_q depth i hi', stackReg_q depth j hj'] at e
+    split at e <;> split at e <;> omega
+  · intro R hR c hc
+    obtain ⟨j, hj, hjR⟩ := List.mem_iff_getElem.mp hR
+    obtain ⟨hjd, rfl⟩ := stk_regs_get w depth j R (by rw [List.getElem?_eq_getElem hj, hjR])
+    obtain ⟨k, hk, hkc⟩ := List.mem_iff_getElem.mp hc
+    have hget : (stackNet w depth).netD.combs[k]? = some c := by rw [List.getElem?_eq_getElem hk, hkc]
+    have hw : c.out ∈ (stackNet w depth).netD.writes k := by simp [NetD.writes, hget]
+    have := ((stk_rw w depth k hd).2 _ hw).2
+    rw [stackReg_q depth j hjd]
+    split at this <;> (try split at this) <;> (try split at this) <;> (try split at this) <;> split <;> omega
+
+def StackInv (w depth : Nat) (D : NetD) (s : State Int) (st : StackSt) : Prop :=
+  ∃ (l : List Nat) (dq : Nat), st = ⟨l.map nat, nat dq⟩ ∧ l.length = depth ∧ (∀ x ∈ l, x < 2 ^ w) ∧ dq < 2 ^ w ∧
+    (∀ k, k < depth → s.st (D.rid k) = (l.getD k 0 : Nat) ∧ s.val (8 + k) = l.getD k 0) ∧
+    s.st (D.rid depth) = (dq : Nat) ∧ s.val (8 + 2 * depth) = dq ∧ s.prepared = []
+
+theorem stack_net_step (w depth : Nat) (hd : 0 < depth) (s : State Int) (st : StackSt) (i : StackIn)
+    (hv : i.din < 2 ^ w ∧ i.push < 2 ∧ i.pop < 2) (hI : StackInv w depth (stackNet w depth).netD s st) :
+    let D := (stackNet w depth).netD
+    let s' := clk D.design 1 ((stackPokes i).foldl (putW D.design) s)
+    StackInv w depth D s' ((stack w depth).step st i) ∧
+    [8 + 2 * depth].map s'.val = [(stack w depth).out ((stack w depth).step st i) i] := by
+  intro D s'
+  obtain ⟨l, dq, rfl, hlen, hall, hdq, hreg0, hst0, hvd, hp⟩ := hI
+  obtain ⟨hdin, hpush, hpop⟩ := hv
+  let sp := (stackPokes i).foldl (putW D.design) s
+  have wd1 : ∀ x, (x = 5 ∨ x = 6 ∨ x = 7) → D.wd x = 1 := by intro x hx; simp [D, KNet.netD, stackNet, hx]
+  have wdw : ∀ x, ¬ (x = 5 ∨ x = 6 ∨ x = 7) → D.wd x = w := by intro x hx; simp [D, KNet.netD, stackNet, hx]
+  have spv : sp.val = upd (upd (upd s.val 1 i.din) 6 i.push) 5 i.pop := by
+    simp only [sp, stackPokes, List.foldl_cons, List.foldl_nil, putW_val, wd1 5 (by simp), wd1 6 (by simp),
+      wdw 1 (by simp), Bits.put_ofNat]
+    simp [Nat.mod_eq_of_lt hdin, Nat.mod_eq_of_lt hpush, Nat.mod_eq_of_lt hpop]
+  have spst : sp.st = s.st := by simp only [sp, stackPokes, List.foldl_cons, List.foldl_nil, putW_val]
+  have spp : sp.prepared = [] := by simp only [sp, stackPokes, List.foldl_cons, List.foldl_nil, putW_val]; exact hp
+  have hrl : D.regs.length = depth + 1 := by simp [D, KNet.netD, stackNet]
+  have hC := cycle D (stackNet_ok w depth hd) sp spp (fun j => if j < depth then l.getD j 0 else dq) (by
+    intro j hj
+    rw [spst]
+    by_cases hjd : j < depth
+    · simp only [hjd, if_true]; exact (hreg0 j hjd).1
+    · have : j = depth := by omega
+      subst this; simp only [Nat.lt_irrefl, if_false]; exact hst0)
+  obtain ⟨hreg, hfix1, hfix2, hin1, hin2, hp2⟩ := hC
+  have free : ∀ x, (x = 1 ∨ x = 5 ∨ x = 6 ∨ (8 ≤ x ∧ x < 8 + depth) ∨ x = 8 + 2 * depth) → ∀ c, c ∈ D.combs → c.out ≠ x := by
+    intro x hx c hc
+    obtain ⟨k, hk, hkc⟩ := List.mem_iff_getElem.mp hc
+    have hget : D.combs[k]? = some c := by rw [List.getElem?_eq_getElem hk, hkc]
+    have hw : c.out ∈ D.writes k := by simp [NetD.writes, hget]
+    have := ((stk_rw w depth k hd).2 _ hw).2
+    split at this <;> (try split at this) <;> (try split at this) <;> (try split at this) <;> omega
+  have memK : ∀ k, k < depth + 4 → Kind.leaf D.wd (stackKind depth k) ∈ D.combs := by
+    intro k hk; exact List.mem_of_getElem? (stk_kinds_get w depth k hk)
+  have sk : ∀ k, stackKind depth (k + 1) = srbKind depth k := by intro k; simp [stackKind]
+  have comb : ∀ (V : Nat → Nat) (L : List Nat), CombFix D V → V 1 = i.din → V 5 = i.pop →
+      V 6 = i.push → (∀ k, k < depth → V (8 + k) = L.getD k 0) →
+      V 7 = or2 1 i.pop i.push ∧
+      (∀ k, k < depth → V (8 + depth + k) = mux2 w i.pop (if k = 0 then i.din else L.getD (k - 1) 0)
+          (if k = depth - 1 then const w 0 else L.getD (k + 1) 0)) ∧
+      V 3 = buf w (L.getD 0 0) := by
+    intro V L hfix h1 h5 h6 hq
+    have h2 : V 2 = const w 0 := by
+      have := hfix _ (memK 0 (by omega))
+      simp only [stackKind, if_true, Kind.leaf, wdw 2 (by simp)] at this
+      rw [this]; exact Leaf.gen_const w 0
+    refine ⟨?_, ?_, ?_⟩
+    · have := hfix _ (memK 1 (by omega))
+      rw [sk 0, srbKind_0] at this
+      simp only [Kind.leaf, List.map, FlatM.g, List.getD_cons_zero, List.getD_cons_succ, h5, h6, wd1 7 (by simp)] at this
+      rw [this]; exact Leaf.gen_or2 1 _ _
+    · intro k hk
+      have := hfix _ (memK (k + 2) (by omega))
+      rw [sk (k + 1), srbKind_mux depth k hk] at this
+      have hvl : V (if k = 0 then 1 else 8 + k - 1) = if k = 0 then i.din else L.getD (k - 1) 0 := by
+        by_cases h0 : k = 0
+        · simp [h0, h1]
+        · simp only [h0, if_false]
+          have : 8 + k - 1 = 8 + (k - 1) := by omega
+          rw [this, hq (k - 1) (by omega)]
+      have hvr : V (if k = depth - 1 then 2 else 8 + k + 1) = if k = depth - 1 then const w 0 else L.getD (k + 1) 0 := by
+        by_cases h0 : k = depth - 1
+        · simp [h0, h2]
+        · simp only [h0, if_false]
+          have : 8 + k + 1 = 8 + (k + 1) := by omega
+          rw [this, hq (k + 1) (by omega)]
+      simp only [Kind.leaf, List.map, FlatM.g, List.getD_cons_zero, List.getD_cons_succ, h5, hvl, hvr,
+        wdw (8 + depth + k) (by omega)] at this
+      rw [this]; exact Leaf.gen_mux2 w _ _ _
+    · have := hfix _ (memK (depth + 2) (by omega))
+      rw [sk (depth + 1), srbKind_lo] at this
+      have h8 := hq 0 hd
+      simp only [Nat.add_zero] at h8
+      simp only [Kind.leaf, List.map, FlatM.g, List.getD_cons_zero, h8, wdw 3 (by simp)] at this
+      rw [this]; exact Leaf.gen_buf w _
+  have v1 : (propagateAll D.design sp).val 1 = i.din := by rw [hin1 1 (free 1 (by simp)), spv]; simp [upd]
+  have v5 : (propagateAll D.design sp).val 5 = i.pop := by rw [hin1 5 (free 5 (by simp)), spv]; simp [upd]
+  have v6 : (propagateAll D.design sp).val 6 = i.push := by rw [hin1 6 (free 6 (by simp)), spv]; simp [upd]
+  have vq : ∀ k, k < depth → (propagateAll D.design sp).val (8 + k) = l.getD k 0 := by
+    intro k hk
+    rw [hin1 (8 + k) (free _ (by omega)), spv]
+    simp only [upd]
+    rw [if_neg (by omega), if_neg (by omega), if_neg (by omega)]
+    exact (hreg0 k hk).2
+  obtain ⟨c7, cmux, c3⟩ := comb _ l hfix1 v1 v5 v6 vq
+  -- the embedded shift register: inputs left_in = din, right_in = zerow = 0, shift_left = pop, shift_right = push
+  let si : SrbIn := ⟨i.din, const w 0, i.pop, i.push⟩
+  let l' := (Spec.shiftRegBidir w depth).step l si
+  have hlen' : l'.length = depth := srb_step_len w depth si l hd hlen
+  have hlt' : ∀ x ∈ l', x < 2 ^ w := srb_step_lt w depth si l hall
+  have hnext : ∀ k, k < depth → regNextV (propagateAll D.design sp).val (srbReg depth k) (l.getD k 0) = l'.getD k 0 := by
+    intro k hk
+    have he := srb_elem w depth si l hd hlen hall k hk
+    have : l'.getD k 0 = (if or2 1 i.pop i.push = 0 then l.getD k 0
+        else mux2 w i.pop (if k = 0 then i.din else l.getD (k - 1) 0)
+               (if k = depth - 1 then const w 0 else l.getD (k + 1) 0)) := by
+      rw [List.getD_eq_getElem?_getD, he]; rfl
+    rw [this]
+    simp only [regNextV, srbReg, C01.regNext, c7, cmux k hk]
+    simp
+  have getlt : ∀ k, l'.getD k 0 < 2 ^ w := getD_lt w l' hlt'
+  have hregs : ∀ k, k < depth →
+      (clk D.design 1 sp).st (D.rid k) = (l'.getD k 0 : Nat) ∧ (clk D.design 1 sp).val (8 + k) = l'.getD k 0 := by
+    intro k hk
+    have hget : D.regs[k]? = some (srbReg depth k) := by
+      simp [D, KNet.netD, stackNet, List.getElem?_map, List.getElem?_range (show k < depth + 1 by omega), stackReg, hk]
+    have := hreg k (srbReg depth k) hget
+    simp only [hk, if_true] at this
+    rw [hnext k hk] at this
+    refine ⟨this.2, ?_⟩
+    have hq : (srbReg depth k).q = 8 + k := rfl
+    rw [hq] at this
+    rw [this.1, wdw (8 + k) (by omega), Bits.put_ofNat]
+    exact Nat.mod_eq_of_lt (getlt k)
+  -- the output register
+  let dR : RLeaf := { hasR := false, hasE := true, rv := 0, d := 3, e := 5, r := 0, q := 8 + 2 * depth }
+  have hgetd : D.regs[depth]? = some dR := by
+    simp [D, KNet.netD, stackNet, List.getElem?_map, List.getElem?_range (show depth < depth + 1 by omega), stackReg, dR]
+  have hdR := hreg depth dR hgetd
+  simp only [Nat.lt_irrefl, if_false] at hdR
+  have hbl : buf w (l.getD 0 0) < 2 ^ w := Nat.mod_lt _ (Nat.two_pow_pos w)
+  have hnx := nat_regNext w false true 0 i.pop (buf w (l.getD 0 0)) dq hbl hdq
+  have hrn : regNextV (propagateAll D.design sp).val dR dq = C01.regNext false true 0 0 i.pop (buf w (l.getD 0 0)) dq := by
+    simp [regNextV, dR, C01.regNext, v5, c3]
+  rw [hrn] at hdR
+  have hstep : (stack w depth).step ⟨l.map nat, nat dq⟩ i =
+      ⟨l'.map nat, nat (C01.regNext false true 0 0 i.pop (buf w (l.getD 0 0)) dq)⟩ := by
+    simp only [stack]
+    rw [srbClk_nat w depth si l hd hlen hall, qAt, getD_map_nat, nat_q, ← hnx.1]
+    rfl
+  have hwq : D.wd (8 + 2 * depth) = w := wdw _ (by omega)
+  have hvq' : (clk D.design 1 sp).val (8 + 2 * depth) = C01.regNext false true 0 0 i.pop (buf w (l.getD 0 0)) dq := by
+    have := hdR.1
+    simp only [dR, hwq, Bits.put_ofNat] at this
+    rw [this]; exact Nat.mod_eq_of_lt hnx.2
+  refine ⟨⟨l', _, hstep, hlen', hlt', hnx.2, hregs, hdR.2, hvq', hp2⟩, ?_⟩
+  rw [hstep]
+  simp only [List.map, stack, nat_q]
+  show [(clk D.design 1 sp).val (8 + 2 * depth)] = _
+  rw [hvq']
+
+/-- **Stack_ShiftRegister, netlist level** (every width, every depth ≥ 1): Constant, the shift-register netlist and the
+    output register — generated leaves under `Net.Sim` from power-up — show on `dout` after every
+    `poke din,push,pop; clk(1)` the after-edge output of `Lib.stack` (overflowing histories included) -/
+theorem stack_net (w depth : Nat) (hd : 0 < depth) (h : List StackIn)
+    (hv : ∀ x ∈ h, x.din < 2 ^ w ∧ x.push < 2 ∧ x.pop < 2) :
+    let D := (stackNet w depth).netD
+    netTrace D stackPokes [8 + 2 * depth] (initC D.design D.st0 D.cons) h =
+      ((stack w depth).trace (stack w depth).init h).map (fun ab => [ab.2]) := by
+  intro D
+  apply netTrace_sim D (stack w depth) stackPokes [8 + 2 * depth] (fun o => [o])
+    (fun x => x.din < 2 ^ w ∧ x.push < 2 ∧ x.pop < 2) (StackInv w depth D)
+  · intro s st i hi hI; exact stack_net_step w depth hd s st i hi hI
+  · exact hv
+  · have hi := init_state D (stackNet_ok w depth hd)
+    have hz : ∀ j, j < depth + 1 → (initC D.design D.st0 D.cons).st (D.rid j) = (0 : Nat) ∧
+        (initC D.design D.st0 D.cons).val (stackReg depth j).q = 0 := by
+      intro j hj
+      have hget : D.regs[j]? = some (stackReg depth j) := by
+        simp [D, KNet.netD, stackNet, List.getElem?_map, List.getElem?_range hj]
+      have h0 := hi.2 j (stackReg depth j) hget
+      have hrv : (stackReg depth j).rv = 0 := by unfold stackReg; split <;> rfl
+      rw [hrv] at h0
+      exact ⟨h0.1, by rw [h0.2]; exact put_zero _⟩
+    refine ⟨List.replicate depth 0, 0, by simp [stack, regInit_zero], by simp, ?_, Nat.two_pow_pos w, ?_, ?_, ?_, hi.1⟩
+    · intro x hx; simp only [List.mem_replicate] at hx; rw [hx.2]; exact Nat.two_pow_pos _
+    · intro j hj
+      have e0 : (List.replicate depth 0).getD j 0 = 0 := by
+        simp [List.getD_eq_getElem?_getD, List.getElem?_replicate, hj]
+      rw [e0]
+      have := hz j (by omega)
+      rw [stackReg_q depth j (by omega)] at this
+      simpa [hj] using this
+    · exact (hz depth (by omega)).1
+    · have := (hz depth (by omega)).2
+      rw [stackReg_q depth depth (by omega)] at this
+      simpa using this
+
+set_option maxRecDepth 8192 in
+example : netTrace (stackNet 3 2).netD stackPokes [12]
+    (initC (stackNet 3 2).netD.design (stackNet 3 2).netD.st0 (stackNet 3 2).netD.cons)
+    [⟨5, 1, 0⟩, ⟨6, 1, 0⟩, ⟨0, 0, 1⟩, ⟨0, 0, 1⟩] = [[0], [0], [6], [5]] := by decide
+
+
+/-! ## PipelinePhase -/
+theorem pipe_regs_get (ws : List Nat) (j : Nat) (R : RLeaf) (h : (pipeNet ws).netD.regs[j]? = some R) :
+    j < ws.length ∧ R = pipeReg ws.length j := by
+  simp only [KNet.netD, pipeNet, List.getElem?_map] at h
+  by_cases hj : j < ws.length
+  · rw [List.getElem?_range hj] at h
+    simp at h
+    exact ⟨hj, h.symm⟩
+  · rw [List.getElem?_eq_none (by simp; omega)] at h
+    simp at h
+
+theorem pipeNet_ok (ws : List Nat) : NetOK (pipeNet ws).netD := by
+  refine ⟨⟨?_, ?_⟩, ?_, ?_⟩
+  · simp [C04.TopoOK, KNet.netD, pipeNet]
+  · intro i hi; simp [KNet.netD, pipeNet] at hi
+  · intro i j R R' hi hj e
+    obtain ⟨_, rfl⟩ := pipe_regs_get ws i R hi
+    obtain ⟨_, rfl⟩ := pipe_regs_get ws j R' hj
+    simp only [pipeReg] at e
+    omega
+  · intro R _ c hc; simp [KNet.netD, pipeNet] at hc
+
+theorem fits_get (ws l : List Nat) (h : Fits ws l) : l.length = ws.length ∧ ∀ j, j < ws.length → l.getD j 0 < 2 ^ ws.getD j 1 := by
+  induction h with
+  | nil => exact ⟨rfl, fun j hj => absurd hj (by simp)⟩
+  | cons hx _ ih =>
+    refine ⟨by simp [ih.1], ?_⟩
+    intro j hj
+    cases j with
+    | zero => simpa using hx
+    | succ j => simpa using ih.2 j (by simpa using hj)
+
+def pipeNext (ws : List Nat) (i : PipeIn) : List Nat :=
+  if i.reset = 1 then ws.map (fun _ => 0) else List.zipWith (fun w d => d % 2 ^ w) ws i.ins
+
+theorem pipeNext_get (ws : List Nat) (i : PipeIn) (hf : Fits ws i.ins) (j : Nat) (hj : j < ws.length) :
+    (pipeNext ws i).getD j 0 = if i.reset = 1 then 0 else i.ins.getD j 0 := by
+  have hl := fits_get ws i.ins hf
+  unfold pipeNext
+  by_cases hr : i.reset = 1
+  · simp [hr, List.getD_eq_getElem?_getD, hj]
+  · simp only [hr, if_false, List.getD_eq_getElem?_getD, List.getElem?_zipWith]
+    have h1 : j < i.ins.length := by omega
+    simp only [List.getElem?_eq_getElem hj, List.getElem?_eq_getElem h1, Option.map_some, Option.bind_some, Option.getD_some]
+    have := hl.2 j hj
+    simp only [List.getD_eq_getElem?_getD, List.getElem?_eq_getElem hj, List.getElem?_eq_getElem h1, Option.getD_some] at this
+    simp [Nat.mod_eq_of_lt this]
+
+def PipeInv (ws : List Nat) (D : NetD) (s : State Int) (st : List RegSt) : Prop :=
+  ∃ l : List Nat, st = l.map nat ∧ Fits ws l ∧
+    (∀ j, j < ws.length → s.st (D.rid j) = (l.getD j 0 : Nat) ∧ s.val (2 + ws.length + j) = l.getD j 0) ∧ s.prepared = []
+
+
+theorem pipe_step (ws : List Nat) (s : State Int) (st : List RegSt) (i : PipeIn)
+    (hv : i.reset < 2 ∧ Fits ws i.ins) (hI : PipeInv ws (pipeNet ws).netD s st) :
+    let D := (pipeNet ws).netD
+    let s' := clk D.design 1 ((pipePokes ws.length i).foldl (putW D.design) s)
+    PipeInv ws D s' ((pipelinePhase ws).step st i) ∧
+    (pipeOuts ws.length).map s'.val = (pipelinePhase ws).out ((pipelinePhase ws).step st i) i := by
+  intro D s'
+  obtain ⟨l, rfl, hfl, hreg0, hp⟩ := hI
+  obtain ⟨hr, hf⟩ := hv
+  have hl := fits_get ws l hfl
+  have hfi := fits_get ws i.ins hf
+  let n := ws.length
+  let sp := (pipePokes n i).foldl (putW D.design) s
+  have spst : sp.st = s.st := C10.foldl_putW_st _ _ _
+  have spp : sp.prepared = [] := by rw [show sp.prepared = s.prepared from C05.foldl_putW_prepared _ _ _]; exact hp
+  have hfst : (pipePokes n i).map Prod.fst = 1 :: (List.range n).map (fun j => 2 + j) := by
+    simp [pipePokes, Function.comp_def]
+  have hnd : ((pipePokes n i).map Prod.fst).Nodup := by
+    rw [hfst, List.nodup_cons]
+    constructor
+    · simp; omega
+    · rw [List.nodup_iff_pairwise_ne, List.pairwise_map]
+      apply (List.nodup_iff_pairwise_ne.mp (List.nodup_range (n := n))).imp
+      intro a b hab; omega
+  have wd1 : D.wd 1 = 1 := by simp [D, KNet.netD, pipeNet]
+  have wdi : ∀ j, j < n → D.wd (2 + j) = ws.getD j 1 := by
+    intro j hj
+    have h1 : ¬ (2 + j = 1) := by omega
+    have h2 : 2 + j < 2 + ws.length := by omega
+    have h3 : 2 + j - 2 = j := by omega
+    simp [D, KNet.netD, pipeNet, h1, h2, h3]
+  have wdo : ∀ j, j < n → D.wd (2 + n + j) = ws.getD j 1 := by
+    intro j hj
+    have h1 : ¬ (2 + ws.length + j = 1) := by omega
+    have h2 : ¬ (2 + ws.length + j < 2 + ws.length) := by omega
+    have h3 : 2 + ws.length + j - 2 - ws.length = j := by omega
+    simp [D, KNet.netD, pipeNet, n, h1, h2, h3]
+  have sp1 : sp.val 1 = i.reset := by
+    have := C04.foldl_putW_hit D.design (pipePokes n i) s hnd (1, (i.reset : Int)) (by simp [pipePokes])
+    rw [this]
+    simp only [C04.mval]
+    rw [show (D.design.width 1) = D.wd 1 from rfl, FlatM.wput, wd1, Bits.put_ofNat]
+    exact Nat.mod_eq_of_lt hr
+  have spi : ∀ j, j < n → sp.val (2 + j) = i.ins.getD j 0 := by
+    intro j hj
+    have := C04.foldl_putW_hit D.design (pipePokes n i) s hnd (2 + j, ((i.ins.getD j 0 : Nat) : Int))
+      (by simp only [pipePokes]; exact List.mem_cons_of_mem _ (List.mem_map.mpr ⟨j, List.mem_range.mpr hj, rfl⟩))
+    rw [this]
+    simp only [C04.mval]
+    rw [show (D.design.width (2 + j)) = D.wd (2 + j) from rfl, FlatM.wput, wdi j hj, Bits.put_ofNat]
+    exact Nat.mod_eq_of_lt (hfi.2 j hj)
+  have spo : ∀ j, j < n → sp.val (2 + n + j) = l.getD j 0 := by
+    intro j hj
+    have : sp.val (2 + n + j) = s.val (2 + n + j) := by
+      apply C10.foldl_putW_val_other
+      rw [hfst]
+      simp
+      refine ⟨by omega, ?_⟩
+      intro x _; omega
+    rw [this]; exact (hreg0 j hj).2
+  have hrl : D.regs.length = n := by simp [D, KNet.netD, pipeNet, n]
+  have hC := cycle D (pipeNet_ok ws) sp spp (fun j => l.getD j 0) (by
+    intro j hj; rw [spst]; exact (hreg0 j (by omega)).1)
+  obtain ⟨hreg, _, _, hin1, _, hp2⟩ := hC
+  have nocomb : ∀ x, ∀ c, c ∈ D.combs → c.out ≠ x := by intro x c hc; simp [D, KNet.netD, pipeNet] at hc
+  let l' := pipeNext ws i
+  have hm := pipeClk_nat i.reset ws i.ins l hf hfl
+  have hfl' : Fits ws l' := hm.2
+  have hl' := fits_get ws l' hfl'
+  have hnext : ∀ j, j < n → regNextV (propagateAll D.design sp).val (pipeReg n j) (l.getD j 0) = l'.getD j 0 := by
+    intro j hj
+    rw [pipeNext_get ws i hf j hj]
+    simp only [regNextV, pipeReg, C01.regNext, hin1 1 (nocomb 1), hin1 (2 + j) (nocomb _), sp1, spi j hj]
+    by_cases h1 : i.reset = 1 <;> simp [h1]
+  have hregs : ∀ j, j < n →
+      (clk D.design 1 sp).st (D.rid j) = (l'.getD j 0 : Nat) ∧ (clk D.design 1 sp).val (2 + n + j) = l'.getD j 0 := by
+    intro j hj
+    have hget : D.regs[j]? = some (pipeReg n j) := by
+      simp [D, KNet.netD, pipeNet, n, List.getElem?_map, List.getElem?_range hj]
+    have := hreg j (pipeReg n j) hget
+    rw [hnext j hj] at this
+    refine ⟨this.2, ?_⟩
+    have hq : (pipeReg n j).q = 2 + n + j := rfl
+    rw [hq] at this
+    rw [this.1, wdo j hj, Bits.put_ofNat]
+    exact Nat.mod_eq_of_lt (hl'.2 j hj)
+  have hstep : (pipelinePhase ws).step (l.map nat) i = l'.map nat := hm.1
+  refine ⟨⟨l', hstep, hfl', hregs, hp2⟩, ?_⟩
+  rw [hstep]
+  simp only [pipelinePhase, List.map_map]
+  apply List.ext_getElem
+  · simp [pipeOuts, hl'.1]
+  · intro j h1 h2
+    have hj : j < n := by simpa [pipeOuts] using h1
+    simp only [pipeOuts, List.getElem_map, List.getElem_range, Function.comp]
+    show (clk D.design 1 sp).val (2 + n + j) = _
+    rw [(hregs j hj).2, List.getD_eq_getElem?_getD]
+    have : j < l'.length := by rw [hl'.1]; exact hj
+    simp [List.getElem?_eq_getElem this]
+
+/-- **PipelinePhase, netlist level** (every number of lanes, every lane width): n generated Reg leaves with the common
+    reset under `Net.Sim` from power-up show on the out wires after every `poke reset,ins; clk(1)` the after-edge
+    outputs of `Lib.pipelinePhase` -/
+theorem pipelinePhase_net (ws : List Nat) (h : List PipeIn) (hv : ∀ x ∈ h, x.reset < 2 ∧ Fits ws x.ins) :
+    let D := (pipeNet ws).netD
+    netTrace D (pipePokes ws.length) (pipeOuts ws.length) (initC D.design D.st0 D.cons) h =
+      ((pipelinePhase ws).trace (pipelinePhase ws).init h).map (fun ab => ab.2) := by
+  intro D
+  apply netTrace_sim D (pipelinePhase ws) (pipePokes ws.length) (pipeOuts ws.length) (fun o => o)
+    (fun x => x.reset < 2 ∧ Fits ws x.ins) (PipeInv ws D)
+  · intro s st i hi hI; exact pipe_step ws s st i hi hI
+  · exact hv
+  · have hi := init_state D (pipeNet_ok ws)
+    have hf0 : ∀ ws' : List Nat, Fits ws' (ws'.map fun _ => 0) := by
+      intro ws'
+      induction ws' with
+      | nil => exact Fits.nil
+      | cons w ws' ih => exact Fits.cons (Nat.two_pow_pos w) ih
+    refine ⟨ws.map fun _ => 0, by simp [pipelinePhase, regInit_zero], hf0 ws, ?_, hi.1⟩
+    intro j hj
+    have hget : D.regs[j]? = some (pipeReg ws.length j) := by
+      simp [D, KNet.netD, pipeNet, List.getElem?_map, List.getElem?_range hj]
+    have h0 := hi.2 j (pipeReg ws.length j) hget
+    have e0 : (ws.map fun _ => 0).getD j 0 = 0 := by
+      simp [List.getD_eq_getElem?_getD, hj]
+    rw [e0]
+    refine ⟨h0.1, ?_⟩
+    have := h0.2
+    simp only [pipeReg] at this
+    rw [this]; exact put_zero _
+
+example : netTrace (pipeNet [2, 4]).netD (pipePokes 2) (pipeOuts 2)
+    (initC (pipeNet [2, 4]).netD.design (pipeNet [2, 4]).netD.st0 (pipeNet [2, 4]).netD.cons)
+    [⟨0, [3, 9]⟩, ⟨1, [1, 1]⟩, ⟨0, [2, 15]⟩] = [[3, 9], [0, 0], [2, 15]] := by decide
 
 
 end C09N
